@@ -439,3 +439,192 @@ Example hypotheses_satisfiable :
                                Check 0 (1,2); Cancel; Filter 0; Call 0; Check 0 (1,3); Filter 0; Call 0]))
   = [(1,1); (1,2)] /\ seqnos 0 3 = [1; 2; 3] /\ (0 < w64 /\ N.of_nat 3 <= w64).
 Proof. vm_compute. repeat split; auto; discriminate. Qed.
+
+(* ================================================================== Send under publish faults *)
+Lemma crun_app : forall st a b, crun st (a ++ b) = crun (crun st a) b.
+Proof. intros. unfold crun. apply fold_left_app. Qed.
+
+(* the sequence number of the i-th message (0-based) of a channel whose counter started at c0 *)
+Definition seq_at (c0 : N) (i : nat) : N := (c0 + N.of_nat (S i)) mod w64.
+
+Record cinv (c0 : N) (st : cstate) : Prop := {
+  ci_counter : counter st = (c0 + N.of_nat (length (sched st))) mod w64;
+  ci_sched : forall i id s, nth_error (sched st) i = Some (id, s) -> id = i /\ s = seq_at c0 i;
+  ci_wire : forall id s ok, In (id, s, ok) (wire st) -> nth_error (sched st) id = Some (id, s) }.
+
+Lemma cinv_init : forall c0, c0 < w64 -> cinv c0 (cinit c0).
+Proof.
+  intros c0 H. split; cbn.
+  - rewrite N.add_0_r. symmetry. apply N.mod_small. exact H.
+  - intros [|i] id s E; discriminate.
+  - intros id s ok [].
+Qed.
+
+Lemma cinv_send : forall c0 st b, cinv c0 st ->
+  cinv c0 (let (c', s) := next_seqno (counter st) in
+           {| counter := c'; sched := sched st ++ [(length (sched st), s)];
+              wire := wire st ++ [(length (sched st), s, b)] |}).
+Proof.
+  intros c0 st b [Hc Hs Hw]. unfold next_seqno.
+  assert (Hn : (counter st + 1) mod w64 = seq_at c0 (length (sched st))).
+  { unfold seq_at. rewrite Hc, N.add_mod_idemp_l by (unfold w64; lia). f_equal. lia. }
+  split; cbn [counter sched wire].
+  - rewrite app_length. cbn [length]. rewrite Hn. unfold seq_at. f_equal. lia.
+  - intros i id s E. destruct (Nat.lt_ge_cases i (length (sched st))) as [L|G].
+    + rewrite nth_error_app1 in E by exact L. apply Hs. exact E.
+    + rewrite nth_error_app2 in E by exact G.
+      destruct (i - length (sched st))%nat as [|d] eqn:Ed.
+      * cbn in E. injection E as <- <-. assert (i = length (sched st)) by lia. subst i. split; [reflexivity | exact Hn].
+      * destruct d; discriminate.
+  - intros id s ok Hin. apply in_app_or in Hin as [Hin | [E | []]].
+    + specialize (Hw _ _ _ Hin). rewrite nth_error_app1; [exact Hw|].
+      apply nth_error_Some. rewrite Hw. discriminate.
+    + injection E as <- <- _. rewrite nth_error_app2 by lia. rewrite Nat.sub_diag. reflexivity.
+Qed.
+
+Lemma cinv_step : forall c0 st o, cinv c0 st -> cinv c0 (cstep st o).
+Proof.
+  intros c0 st o H. destruct o as [r|i ok]; cbn [cstep].
+  - destruct r; [exact H | apply cinv_send; exact H | apply cinv_send; exact H].
+  - destruct (nth_error (sched st) i) as [[id s]|] eqn:E; [|exact H].
+    destruct H as [Hc Hs Hw]. split; cbn [counter sched wire]; auto.
+    intros id' s' ok' Hin. apply in_app_or in Hin as [Hin | [E' | []]]; [eauto|].
+    injection E' as <- <- _. destruct (Hs _ _ _ E) as [-> _]. exact E.
+Qed.
+
+Lemma cinv_run : forall c0 ops st, cinv c0 st -> cinv c0 (crun st ops).
+Proof.
+  intros c0 ops. induction ops as [|o t IH]; intros st H; [exact H|].
+  cbn [crun fold_left]. apply IH. apply cinv_step. exact H.
+Qed.
+
+Lemma seq_at_inj : forall c0 i j, N.of_nat i < w64 -> N.of_nat j < w64 ->
+  seq_at c0 i = seq_at c0 j -> i = j.
+Proof.
+  assert (Hlt : forall c0 i j, (i < j)%nat -> N.of_nat j < w64 -> seq_at c0 i = seq_at c0 j -> False).
+  { intros c0 i j L Hj E. unfold seq_at in E.
+    apply (mod_shift_neq (c0 + N.of_nat i) (N.of_nat (j - i))); [lia | lia |].
+    replace (c0 + N.of_nat i + 1) with (c0 + N.of_nat (S i)) by lia.
+    replace (c0 + N.of_nat (S i) + N.of_nat (j - i)) with (c0 + N.of_nat (S j)) by lia. exact E. }
+  intros c0 i j Hi Hj E. destruct (Nat.lt_trichotomy i j) as [L | [L | L]]; [|exact L|].
+  - exfalso. eapply Hlt; eauto.
+  - exfalso. eapply (Hlt c0 j i); eauto.
+Qed.
+
+(* the counter only counts: one step per Send that reached nextSeqno, whatever the publisher did *)
+Lemma counter_counts_sends : forall c0 ops, c0 < w64 ->
+  let st := crun (cinit c0) ops in
+  counter st = (c0 + N.of_nat (length (sched st))) mod w64.
+Proof. intros c0 ops H st. apply (ci_counter _ _ (cinv_run c0 ops _ (cinv_init c0 H))). Qed.
+
+(* fresh_seqno under faults: over every history of Sends and retransmissions with arbitrary
+   publish faults, two publish calls carry the same sequence number iff they carry the same
+   message *)
+Lemma wire_seqnos_fresh : forall c0 ops, c0 < w64 ->
+  let st := crun (cinit c0) ops in
+  N.of_nat (length (sched st)) <= w64 ->
+  forall a b, In a (wire st) -> In b (wire st) ->
+    (fst (fst a) = fst (fst b) <-> snd (fst a) = snd (fst b)).
+Proof.
+  intros c0 ops H st Hk [[i1 s1] k1] [[i2 s2] k2] Ha Hb. cbn [fst snd].
+  destruct (cinv_run c0 ops _ (cinv_init c0 H)) as [_ Hs Hw]. fold st in Hs, Hw.
+  pose proof (Hw _ _ _ Ha) as E1. pose proof (Hw _ _ _ Hb) as E2.
+  destruct (Hs _ _ _ E1) as [_ ->]. destruct (Hs _ _ _ E2) as [_ ->].
+  assert (L1 : (i1 < length (sched st))%nat) by (apply nth_error_Some; rewrite E1; discriminate).
+  assert (L2 : (i2 < length (sched st))%nat) by (apply nth_error_Some; rewrite E2; discriminate).
+  split; [intros ->; reflexivity|]. apply seq_at_inj; lia.
+Qed.
+
+(* every publish of one message carries the number its Send took *)
+Lemma retransmissions_keep_seqno : forall c0 ops, c0 < w64 ->
+  let st := crun (cinit c0) ops in
+  forall id s ok, In (id, s, ok) (wire st) -> s = seq_at c0 id.
+Proof.
+  intros c0 ops H st id s ok Hin.
+  destruct (cinv_run c0 ops _ (cinv_init c0 H)) as [_ Hs Hw]. fold st in Hs, Hw.
+  destruct (Hs _ _ _ (Hw _ _ _ Hin)) as [_ ->]. reflexivity.
+Qed.
+
+Lemma before_cancel_arrivals : forall sender w,
+  before_cancel (wire_arrivals sender w) =
+  flat_map (fun e : nat * N * bool => if snd e then [(sender, snd (fst e))] else []) w.
+Proof.
+  intros sender w. induction w as [|e w IH]; [reflexivity|].
+  unfold wire_arrivals in *. cbn [flat_map]. destruct (snd e); cbn [app before_cancel]; [f_equal|]; exact IH.
+Qed.
+
+(* a receiver that gets everything that was published successfully, retransmissions included,
+   calls its delegate exactly once per message, and no message hides another *)
+Lemma delivered_exactly_once_under_faults : forall c0 ops sender, c0 < w64 ->
+  let st := crun (cinit c0) ops in
+  N.of_nat (length (sched st)) <= w64 ->
+  let d := receiver_deliveries sender (wire st) in
+  NoDup d /\
+  (forall id s, In (id, s, true) (wire st) -> In (sender, s) d) /\
+  (forall m, In m d -> fst m = sender /\ exists id, In (id, snd m, true) (wire st)) /\
+  (forall id1 id2 s ok1 ok2, In (id1, s, ok1) (wire st) -> In (id2, s, ok2) (wire st) -> id1 = id2).
+Proof.
+  intros c0 ops sender H st Hk d.
+  destruct (atomic_delivered_iff (wire_arrivals sender (wire st))) as [Hnd Hin].
+  fold (receiver_deliveries sender (wire st)) in Hnd, Hin. fold d in Hnd, Hin.
+  rewrite before_cancel_arrivals in Hin.
+  split; [exact Hnd|]. split; [|split].
+  - intros id s Hw. apply Hin. apply in_flat_map. exists (id, s, true). split; [exact Hw | left; reflexivity].
+  - intros m Hm. apply Hin in Hm. apply in_flat_map in Hm as ([[id s] ok] & Hw & Hx). cbn [fst snd] in Hx.
+    destruct ok; [|destruct Hx]. destruct Hx as [<- | []]. cbn [fst snd]. split; [reflexivity | eauto].
+  - intros id1 id2 s ok1 ok2 H1 H2.
+    apply (proj2 (wire_seqnos_fresh c0 ops H Hk _ _ H1 H2)). reflexivity.
+Qed.
+
+(* ---------- executable forms for fault histories ---------- *)
+Lemma nodupN_sound : forall l, nodupN l = true -> NoDup l.
+Proof.
+  induction l as [|x l IH]; intro H; [constructor|]. cbn [nodupN] in H. apply andb_prop in H as [H1 H2].
+  constructor; [|apply IH; exact H2]. intro Hin. apply negb_true_iff in H1.
+  assert (existsb (N.eqb x) l = true) by (apply existsb_exists; exists x; split; [exact Hin | apply N.eqb_refl]).
+  congruence.
+Qed.
+
+Lemma eqb_iff : forall a b c d : N, Bool.eqb (a =? b) (c =? d) = true <-> (a = b <-> c = d).
+Proof.
+  intros a b c d. destruct (N.eqb_spec a b), (N.eqb_spec c d); cbn; split; intros; try tauto; try discriminate;
+    exfalso; tauto.
+Qed.
+
+Lemma fault_spec_sound : forall c, fault_spec c = true ->
+  (forall a b, In a (fa_wire c) -> In b (fa_wire c) ->
+     (fst (fst a) = fst (fst b) <-> snd (fst a) = snd (fst b))) /\
+  NoDup (map snd (fa_delivered c)) /\
+  (fa_flushed c = true -> forall e, In e (fa_wire c) ->
+     count_id (fst (fst e)) (fa_delivered c) =
+     if has_ok (fst (fst e)) (fa_wire c) then 1%nat else 0%nat).
+Proof.
+  intros c H. unfold fault_spec in H. apply andb_prop in H as [H H3]. apply andb_prop in H as [H1 H2].
+  split; [|split].
+  - intros a b Ha Hb. unfold wire_fresh in H1. rewrite forallb_forall in H1.
+    specialize (H1 a Ha). rewrite forallb_forall in H1. apply eqb_iff. exact (H1 b Hb).
+  - apply nodupN_sound. exact H2.
+  - intros Hf e He. rewrite Hf in H3. rewrite forallb_forall in H3. apply Nat.eqb_eq. exact (H3 e He).
+Qed.
+
+(* ... and the wire of every model history passes the freshness check *)
+Lemma model_wire_fresh : forall c0 ops, c0 < w64 ->
+  let st := crun (cinit c0) ops in
+  N.of_nat (length (sched st)) <= w64 ->
+  wire_fresh (map (fun e : nat * N * bool => (N.of_nat (fst (fst e)), snd (fst e), snd e)) (wire st)) = true.
+Proof.
+  intros c0 ops H st Hk. unfold wire_fresh. apply forallb_forall. intros a Ha. apply forallb_forall. intros b Hb.
+  apply in_map_iff in Ha as (x & <- & Hx). apply in_map_iff in Hb as (y & <- & Hy). cbn [fst snd].
+  apply eqb_iff. pose proof (wire_seqnos_fresh c0 ops H Hk x y Hx Hy) as W. fold st in W.
+  split; intro E.
+  - apply W. apply Nat2N.inj. exact E.
+  - apply W in E. now rewrite E.
+Qed.
+
+(* the hypotheses are satisfiable: the first publish of message 0 fails, its retransmission and
+   message 1 succeed; both are delivered, with numbers 1 and 2 *)
+Example faults_satisfiable :
+  let st := crun (cinit 0) [CSend SPublishErr; CSend SMarshalErr; CSend SPublished; CRetx 0 true; CRetx 1 false] in
+  wire st = [(0%nat, 1, false); (1%nat, 2, true); (0%nat, 1, true); (1%nat, 2, false)] /\
+  receiver_deliveries 7 (wire st) = [(7, 2); (7, 1)] /\ counter st = 2.
+Proof. vm_compute. repeat split. Qed.
